@@ -346,7 +346,11 @@ func (w *walker) call(pos token.Pos, lhs []ast.Expr, c *ast.CallExpr) {
 	case "fs.MkDir":
 		w.emit(pos, "mkdir(%s)", strings.Join(args, ","))
 	case "fs.Rm":
-		w.emit(pos, "rm(%s)", strings.Join(args, ","))
+		if len(names) > 0 {
+			w.emit(pos, "%s = rm(%s)", strings.Join(names, ","), strings.Join(args, ","))
+		} else {
+			w.emit(pos, "rm(%s)", strings.Join(args, ","))
+		}
 	case "fs.OpenFile":
 		w.emit(pos, "openfile(%s)", args[1])
 	case "zippedFile.Open":
@@ -389,8 +393,36 @@ func (w *walker) checkReturn(r *ast.ReturnStmt) {
 }
 
 func (w *walker) stmts(list []ast.Stmt) {
-	for _, s := range list {
+	for i := 0; i < len(list); i++ {
+		s := list[i]
 		w.stmt(s)
+		// the error of the removal of a nested archive: `X = fs.Rm(..)` followed by `if X != nil { err = wrap(X) }`
+		a, ok := s.(*ast.AssignStmt)
+		if !ok || len(a.Rhs) != 1 || len(a.Lhs) != 1 || i+1 >= len(list) {
+			continue
+		}
+		c, ok := a.Rhs[0].(*ast.CallExpr)
+		if !ok || src(c.Fun) != "fs.Rm" || src(a.Lhs[0]) == "_" {
+			continue
+		}
+		x := src(a.Lhs[0])
+		ifs, ok := list[i+1].(*ast.IfStmt)
+		if !ok || src(ifs.Cond) != x+"!=nil" {
+			continue
+		}
+		if ifs.Else != nil || ifs.Init != nil || len(ifs.Body.List) != 1 {
+			die(ifs.Pos(), "handling of the error of fs.Rm")
+		}
+		b, ok := ifs.Body.List[0].(*ast.AssignStmt)
+		if !ok || len(b.Lhs) != 1 || src(b.Lhs[0]) != "err" || len(b.Rhs) != 1 {
+			die(ifs.Pos(), "handling of the error of fs.Rm: the body is not `err = ...`")
+		}
+		bc, ok := b.Rhs[0].(*ast.CallExpr)
+		if src(b.Rhs[0]) != x && !(ok && strings.HasPrefix(src(bc.Fun), "commonerrors.") && len(bc.Args) > 0 && src(bc.Args[0]) == x) {
+			die(ifs.Pos(), "handling of the error of fs.Rm: err is not built from %s", x)
+		}
+		w.emit(ifs.Pos(), "if %s != nil { err = wrap(%s) }", x, x)
+		i++
 	}
 }
 
@@ -901,8 +933,20 @@ func main() {
 	if strings.Join(uz.results, ",") != "fileList,fileOnDiskCount,sizeOnDisk,err" {
 		die(token.NoPos, "unzip: named results are %v", uz.results)
 	}
-	if !ns.has("rm(nestedZipFile)") {
-		die(token.NoPos, "unzipNestedZipFiles: the nested archive is not removed")
+	rmReturned := false
+	switch {
+	case ns.has("subErr = rm(nestedZipFile)") && ns.has("if subErr != nil { err = wrap(subErr) }"):
+		rmReturned = true
+		// nothing may reset err afterwards: the removal and its error handling are the last statements before the return
+		if n := len(ns.events); ns.events[n-1].text != "if subErr != nil { err = wrap(subErr) }" || ns.events[n-2].text != "subErr = rm(nestedZipFile)" {
+			die(token.NoPos, "unzipNestedZipFiles: statements after the handling of the error of fs.Rm")
+		}
+	case ns.has("_ = rm(nestedZipFile)"), ns.has("rm(nestedZipFile)"):
+	default:
+		die(token.NoPos, "unzipNestedZipFiles: the nested archive is not removed by fs.Rm(nestedZipFile), or its error is handled in an unknown way")
+	}
+	if !ns.before("nestedUnzippedFiles,fileOnDiskCount,filesSizeOnDisk,subErr := unzip(nestedZipFile,destination,limits,currentDepth+"+fmt.Sprint(nsInc)+")", "subErr = rm(nestedZipFile)") && rmReturned {
+		die(token.NoPos, "unzipNestedZipFiles: removal before the extraction")
 	}
 
 	// ---- unzipZippedFile ----
@@ -982,6 +1026,7 @@ func main() {
 	w("zf_bounded_copy", coqBool(bounded))
 	w("zf_eos_probe", coqBool(probe))
 	w("ns_depth_inc", fmt.Sprint(nsInc))
+	w("ns_rm_error_returned", coqBool(rmReturned))
 	w("tr_newzipreader", coqTrace(nz))
 	w("tr_unzip", coqTrace(uz))
 	w("tr_nested", coqTrace(ns))
